@@ -86,6 +86,17 @@ def check_rebalance(chk, f, what):
                     # a disjunction/conjunction that is only partly decided on this edge contributes nothing: require a decided atom
                 al = "|".join(re.escape(x) for x in alias)
                 okb = any(t and (re.match(r"^\((\w+) == (%s)->height\)$" % al, k) or re.match(r"^\((%s)->height == (\w+)\)$" % al, k)) for k, t in facts)
+                if not okb and blk.get("cond") is not None and len(blk["succ"]) == 2 and tk != "SwitchStmt":
+                    # the height test kept in a bool local defined inside the walk (`const bool heightKept = oldHeight == parent->height;`)
+                    defs_c = q.local_defs(f)
+                    for an_, tr_ in q.cond_atoms(f, blk["cond"], blk["succ"][0] == s and blk["succ"][1] != s):
+                        xn_ = f.nodes[f.strip(an_)]
+                        if tr_ and xn_["k"] == "DeclRefExpr" and xn_["ref"].get("dk") == "local":
+                            ini_ = q.single_def(f, xn_["ref"]["id"], defs_c)
+                            if ini_ is not None and (f.node_pos(f.strip(ini_)) or (None,))[0] in lb:
+                                ki_ = fin.key(f, ini_)
+                                if re.match(r"^\((\w+) == (%s)->height\)$" % al, ki_) or re.match(r"^\((%s)->height == (\w+)\)$" % al, ki_):
+                                    okb = True
                 if not okb and blk.get("cond") is not None and len(blk["succ"]) == 2:
                     # the walk's own bound, spelled as a statement inside the body instead of as the loop condition: the walked node has
                     # run out (null) or has reached a local / parameter that the loop does not change (`if(parent == origParent) break;`)
@@ -100,8 +111,8 @@ def check_rebalance(chk, f, what):
                             if re.match(r"^\w+$", oth_) and not stored_:
                                 okb = True
                 # the edge must not be reachable through another, undecided condition: the successor outside the loop has this block as its only loop predecessor
-                others = [p for p in f.preds.get(s, []) if p in lb and p != u]
-                if not okb or others:
+                # (every other edge into the successor from inside the loop is an exit edge of its own and judged separately)
+                if not okb:
                     bad_exit = (u, s)
         if bad_exit:
             els = [e for e in f.blocks[bad_exit[0]]["el"] if isinstance(e, int)]
@@ -221,7 +232,7 @@ def run(prog, chk):
                 heads = set()
                 for c, v, lb in loops:
                     for u in lb:
-                        if f.blocks[u].get("tk") == "WhileStmt":
+                        if f.blocks[u].get("tk") in ("WhileStmt", "ForStmt") and f.blocks[u].get("cond") is not None:
                             heads.add((u, 0))
                 links = [s for s in q.stores(f) if re.search(r"^\*cell$|->left$|->right$", q.no_casts(f.r(s.lhs)))]
                 if heads and f.find_path(f.entry_pos(), {f.exit_pos()}, avoid=heads, after_src=False) is None and len(links) >= 9:
